@@ -214,6 +214,13 @@ func c11Passive(c *Ctx, cs *Case) {
 // c11Freshness: an array literal makes new arrays at every level each time it is evaluated, however constant it looks
 func c11Freshness() []string {
 	return []string{
+		// a loop-body local named like an outer array variable / parameter, the loop left by থামো / চালিয়ে_যাও from a nested block:
+		// afterwards the outer name denotes the outer array again (and its aliases see what is written through it)
+		Lines(Var("cell", "[9, 9, 9]"), Var("home", "cell"), Var("queue", "[[1, 1], [0, 0], [2, 2]]"), Var("second", "queue[1]"), Var("steps", "0"),
+			While(BI("len", "queue")+" > 0", "{ "+Var("cell", "queue[0]")+" queue = "+BI("remove", "queue", "0")+"; steps = steps + 1; "+If("cell[0] == 0", "{ "+Break()+" }")+" }"),
+			Print("steps"), Print(BI("len", "cell")), "cell[0] = 5;", Print("cell"), Print("home"), Print("second"), Print(BI("append", "cell", "7")), Print(BI("remove", "cell", "0"))),
+		Lines(Fun("drain", "work, slot", " "+While(BI("len", "work")+" > 0", "{ "+Var("slot", "work[0]")+" work = "+BI("remove", "work", "0")+"; "+If("slot[0] == 0", "{ "+Break()+" }")+" }")+" slot[1] = 4; "+Ret(BI("len", "slot"))+" "), Var("mine", "[8, 8, 8, 8]"), Var("jobs", "[[3, 3], [0, 0]]"), Print("drain(jobs, mine)"), Print("mine"), Print("jobs")),
+		Lines(Var("acc", "[0]"), Var("k", "0"), While("k < 4", "{ k = k + 1; "+Var("acc", "[k]")+" "+If("k % 2 == 1", "{ { "+Continue()+" } }")+" acc[0] = 100; }"), "acc[0] = acc[0] + k;", Print("acc"), For(Var("j", "0"), "j < 3", "j = j + 1", "{ "+Var("acc", "[j, j]")+" "+If("j == 1", "{ "+Break()+" }")+" }"), Print("acc"), Print(BI("len", "acc"))),
 		Lines(Fun("board", "", " "+Ret("[[0, 0, 0], [0, 0, 0]]")+" "), Var("b1", "board()"), Var("b2", "board()"), "b1[0][0] = 1;", "b1[1][2] = 2;", Print("b1"), Print("b2"), Print("board()")),
 		Lines(Var("rows", "[]"), For(Var("i", "0"), "i < 3", "i = i + 1", "{ "+Var("row", "[[0], [0, 0]]")+" row[0][0] = i + 1; rows = "+BI("append", "rows", "row")+"; }"), Print("rows"), "rows[0][1][1] = 9;", Print("rows[1]"), Print("rows[2]")),
 		Lines(Fun("tab", "", " "+Var("t", `[["a", "b"], [1, [2, 3]], []]`)+" t[1][1][0] = t[1][1][0] + 10; "+Ret("t")+" "), Print("tab()"), Print("tab()"), Var("k", "tab()"), "k[0][0] = 0;", Print("tab()"), Print("k")),
